@@ -161,7 +161,8 @@ macro_rules! do_text_token_tok {
         do_each!($i,
            span => input!(),
            frag => text_token!($text_token),
-           _ => either!(whitespace, comment),
+           // Only look ahead: a comment right after a keyword is still a token of its own.
+           _ => peek!(either!(whitespace, comment)),
            (Token {
                typ: $type,
                pos: Position::from(&span),
